@@ -510,7 +510,8 @@ def c15():
         "theorems": ["C15_nonempty_refused", "C15_overwrite", "C15_overwrite_never_refuses",
                      "C15_run_config_total", "C15_refine_options", "C15_plan_fits_all_files", "C15_validate_table",
                      "C15_tree_saved_last", "C15_source_tie_refine_options", "C15_source_tie_plan",
-                     "C15_source_tie_validate_out", "C15_source_tie_validate_sites"],
+                     "C15_source_tie_validate_out", "C15_source_tie_validate_sites",
+                     "C15_run_is_api_script", "C15_run_partition", "C15_run_centroids_exact", "C15_run_bound", "C15_run_total"],
         "model_files": ["Model/Cli.v", "Model/ObsCli.v", "Gen/GCli.v", "Proofs/GenTieCli.v", "Gen/GCliVd.v", "Proofs/GenTieCliVd.v"],
         "suites": [suite_cli.suite_cli],
         "search": suite_cli.search_c15,
